@@ -113,6 +113,31 @@ def edges(rng, case, idx):
                          {'container': f'{v} uL of {sub.name} in a {cap} vessel', 'target': f'{pct} %v/v', 'exc': repr(exc)[:160]})
                 else:
                     M.note_nontrivial(case['prop'], ('E1', v, pct, sub.name))
+            # ... from a mixture: a five-fold dilution of 2 uL of 20 %v/v in a 10 uL tube
+            for k_ in range(12):
+                cap_ul = rng.choice([10, 20, 50, 100, 200, 500, 1000, 5000, 50000])
+                factor = rng.choice([2, 4, 5, 8, 10, 20, 25])
+                start_pct = rng.choice([20, 40, 50, 10, 80])
+                v0 = cap_ul / factor
+                M.bucket(case['prop'] + '/edge/E1_dilute_a_mixture_exactly_to_capacity')
+                c = C('tube', f'{cap_ul} uL', [(dmso, f'{v0 * start_pct / 100:.10g} uL'), (water, f'{v0 * (100 - start_pct) / 100:.10g} uL')])
+                res, exc = attempt(lambda: c.dilute(dmso, f'{start_pct / factor:.10g} %v/v', water))
+                if exc is not None:
+                    viol(['C03', 'C11'], f'C03:dilute_exactly_to_capacity_refused:mixture:{type(exc).__name__}', {'tube_uL': cap_ul, 'holds_uL': v0, 'from_pct': start_pct, 'factor': factor, 'exc': repr(exc)[:120]})
+            # ... and fill_to the capacity of a small well that holds a protein
+            igg_ = S.solid('IgG', 150000.0)
+            for k_ in range(12):
+                cap_ul = rng.choice([10, 20, 50, 100, 200, 1000, 2000])
+                ug, buf = rng.choice([0.1, 0.5, 1, 2, 5, 10]), rng.choice([1, 2, 5])
+                M.bucket(case['prop'] + '/edge/E1_fill_to_capacity_next_to_a_protein')
+                wl, exc = attempt(lambda: C('well', f'{cap_ul} uL', [(igg_, f'{ug} ug'), (water, f'{buf} uL')]))
+                if exc is not None:
+                    continue
+                res, exc = attempt(lambda: wl.fill_to(water, f'{cap_ul} uL'))
+                if exc is not None:
+                    viol(['C03', 'C11'], f'C03:fill_to_capacity_refused:next_to_a_protein:{type(exc).__name__}', {'well_uL': cap_ul, 'IgG_ug': ug, 'buffer_uL': buf, 'exc': repr(exc)[:120]})
+                elif abs(res.get_volume('uL') - cap_ul) > 1e-6:
+                    viol(['C11', 'C10'], 'C11:fill_total_ne_target:next_to_a_protein', {'well_uL': cap_ul, 'got_uL': res.get_volume('uL')})
         elif fam == 1:
             # ---- E2
             brine = C('b', '1 L', [(water, '100 mL'), (salt, '5 g')])
@@ -1116,6 +1141,15 @@ def edges(rng, case, idx):
             res, exc = attempt(lambda: C.create_solution([lipa, amyl], water, concentration=['0.3 U/U', '1 mg/kg'], total_quantity='1000 kg'))
             if exc is not None:
                 viol(['C05', 'C03'], f'C05:feasible_request_refused:solute_stated_per_a_trace_solute:{type(exc).__name__}', {'exc': repr(exc)[:100]})
+            cat_, sod_, amy3 = S.enzyme('catalase', '50000 U/mg'), S.enzyme('SOD', '4000 U/mg'), S.enzyme('amylase', '100 U/mg')
+            for concs, tot, want in ((['0.45 U/U', '0.45 U/U', '1 mg/kg'], '500 kg', 0.45), (['0.45 U/U', '0.45 U/U', '1 ng/kg'], '100 kg', 0.45), (['0.6 U/U', '0.3 U/U', '0.1 mg/g'], '100 kg', 0.6)):
+                res, exc = attempt(lambda: C.create_solution([cat_, sod_, amy3], water, concentration=concs, total_quantity=tot))
+                if exc is not None:
+                    viol(['C05', 'C03'], f'C05:feasible_request_refused:solute_stated_per_a_trace_solute:three_enzymes:{type(exc).__name__}', {'concentrations': concs, 'total': tot, 'exc': repr(exc)[:100]})
+                else:
+                    tot_u = sum(a_ for s_, a_ in res.contents.items() if s_.is_enzyme())
+                    if res.contents.get(cat_, 0.0) > 1e6 * cf.q and abs(res.contents[cat_] / tot_u - want) > 1e-7:
+                        viol(['C05', 'C03'], 'C05:stated_concentration_not_met:solute_stated_per_a_trace_solute', {'concentrations': concs, 'total': tot, 'catalase_share_of_activity': res.contents[cat_] / tot_u, 'stated': want})
             M.bucket(case['prop'] + '/edge/E31_per_unit_of_activity_with_an_enzyme_in_the_solvent_container')
             stock = C('lipase stock', initial_contents=[(water, '1 L'), (lipa, '2000 U')])
             res, exc = attempt(lambda: C.create_solution([amyl, salt], stock, concentration=['0.5 U/mL', '1 mmol/U'], total_quantity='10 mL'))
